@@ -69,6 +69,10 @@ def expand_(
                     nonlocal active_count
 
                     observer.on_next(value)
+                    if d.is_disposed:
+                        # unsubscribed from inside that on_next
+                        return
+
                     result = None
                     try:
                         result = mapper(value)
